@@ -3,7 +3,7 @@
 From V.lib Require Import Base.
 From V.c01 Require Import C01Codec C01Model C01LeafProofs C01Leaf2Proofs C01Leaf3Proofs C01Leaf4Proofs C01Leaf5Proofs C01TableProofs C01TreeProofs C01WhyProofs C01Witness C01Witness3
   C01RealFiles C01RealWitness C01SizeProofs C01LocalProofs C01StableProofs C01FixProofs C01Witness4 C01EsdsProofs C01SgpdProofs C01Witness5
-  C01FileModel C01FileProofs C01FileExamples C01FileWitness.
+  C01FileModel C01FileProofs C01FileExamples C01FileWitness C01Witness6.
 
 (* a compact header written by EncodeHeaderSW is read back by DecodeHeaderSR *)
 Theorem C01_header_rt : forall name sz r, lenN name = 4 -> 8 <= sz < 4294967296 ->
@@ -97,6 +97,14 @@ Theorem C01_leaf_lossless_stage3 :
 Proof. exact (conj lossless_colr (conj lossless_clap (conj lossless_schm (conj lossless_cslg (conj lossless_senc (conj lossless_emsg (conj lossless_elng (conj lossless_kind (conj lossless_hvcC (conj lossless_subs (conj lossless_esds (conj lossless_uuid (conj lossless_sgpd (conj lossless_stsd (conj lossless_dref (conj lossless_visual lossless_audio)))))))))))))))). Qed.
 Print Assumptions C01_leaf_lossless_stage3.
 
+
+(* third extension round: data (type indicator and locale kept since repo commit f36e540), mime, the wvtt sample-entry prefix,
+   vtte, vsid; vttC vlab ctim iden sttg payl vtta are entries of leaf_table decoded by dec_free; MetaBox: dec_fullonly as the
+   ISO prefix, the QuickTime form is a pure container chosen by meta_qt (the look-ahead of DecodeMetaSR) in decode *)
+Theorem C01_leaf_lossless_stage5 :
+  leaf_lossless dec_data /\ leaf_lossless dec_mime /\ leaf_lossless dec_wvtt /\ leaf_lossless dec_empty /\ leaf_lossless dec_b4.
+Proof. exact (conj lossless_data (conj lossless_mime (conj lossless_wvtt (conj lossless_empty lossless_b4)))). Qed.
+Print Assumptions C01_leaf_lossless_stage5.
 
 (* stage 2 leaf kinds *)
 
@@ -326,14 +334,13 @@ Proof. exact real_media_ok. Qed.
    box-local (moov needs the first-trak/mdia/minf/stbl/stts chain; in a fragmented file an mdat must follow a moof, in a
    progressive file only one mdat may have a payload; a traf with an unparsed senc and a moov needs a tfhd; a cut-short mdat
    ends the loop).  The loop is exactly the box loop filtered by the rules as long as no mdat is cut short: *)
-Theorem C01_file_rules_sound : forall bs ts, decode_file_sr bs = FOk ts -> no_trunc ts = true ->
-  decode_file bs = Ok ts /\ file_rules fs0 (map erase_rsv ts) = true.
-Proof. exact (fun bs ts => loop_sound (S (length bs)) fs0 bs ts). Qed.
-Print Assumptions C01_file_rules_sound.
-Theorem C01_file_rules_complete : forall bs ts, decode_file bs = Ok ts -> file_rules fs0 (map erase_rsv ts) = true ->
-  no_trunc ts = true -> decode_file_sr bs = FOk ts.
-Proof. exact (fun bs ts => loop_complete (S (length bs)) fs0 bs ts). Qed.
-Print Assumptions C01_file_rules_complete.
+Theorem C01_file_rules : forall bs ts, no_trunc ts = true ->
+  (decode_file_sr bs = FOk ts <-> (decode_file bs = Ok ts /\ file_rules fs0 (map erase_rsv ts) = true)).
+Proof.
+  exact (fun bs ts Hn => conj (fun H => loop_sound (S (length bs)) fs0 bs ts H Hn)
+                              (fun H => loop_complete (S (length bs)) fs0 bs ts (proj1 H) (proj2 H) Hn)).
+Qed.
+Print Assumptions C01_file_rules.
 
 (* C01_file_accepted: for EVERY byte string that DecodeFileSR accepts (FOk: box-local AND File-level rules; files that reach
    TrafBox.ParseReadSenc have the separate outcome FSencParse and are outside, see C02/C04) whose top-level trees are exact:
@@ -374,3 +381,33 @@ Theorem C01_file_truncated_mdat_refuted :
   lenN fx_trunc_mdat = 504 /\ lenN (fenc_of fx_trunc_mdat) = 500 /\ firstn 492 (fenc_of fx_trunc_mdat) = firstn 492 fx_trunc_mdat.
 Proof. exact file_trunc_mdat_refuted. Qed.
 Print Assumptions C01_file_truncated_mdat_refuted.
+
+(* ---------------------------------------------------------------- third extension round: examples and repaired findings *)
+(* a REAL udta box (mp4/testdata/bbb5s_aac_sidx.mp4): udta{meta{hdlr ilst{(c)too{data}}}} with the ISO form of MetaBox, and the same
+   metadata in a QuickTime meta atom: every box typed, exact, no reason, fixed points of Encode and EncodeSW *)
+Example C01_ex_meta_iso : fixed_point rb_udta_meta /\
+  match treeof rb_udta_meta with
+  | MCont _ [MPre _ (LFullOnly _ 0 0) _ [MLeaf _ (LHdlr _ _ _ _ _ _) _; MCont _ [MCont _ [MLeaf _ (LData 1 0 _) _]]]] => True
+  | _ => False
+  end.
+Proof. exact ex_meta_iso_ok. Qed.
+Example C01_ex_meta_quicktime : fixed_point rb_udta_meta_qt /\
+  match treeof rb_udta_meta_qt with
+  | MCont _ [MCont h [MLeaf _ (LHdlr _ _ _ _ _ _) _; MCont _ [MCont _ [MLeaf _ (LData 1 0 _) _]]]] => h_name h = n_meta
+  | _ => False
+  end.
+Proof. exact ex_meta_qt_ok. Qed.
+Example C01_ex_mime_wvtt : fixed_point ex_mime /\ fixed_point ex_wvtt.
+Proof. exact (conj ex_mime_ok (proj1 ex_wvtt_ok)). Qed.
+(* finding C01-F7, repaired by repo commit f36e540: the type indicator (21) and the locale of an iTunes value atom survive *)
+Theorem C01_data_type_fixed : fixed_point ex_data21 /\
+  match treeof ex_data21 with MLeaf _ (LData 21 25966 [0; 7]) _ => True | _ => False end.
+Proof. exact data_type_fixed. Qed.
+Print Assumptions C01_data_type_fixed.
+(* what leaf_guard excludes for wvtt is really not reproduced: a wvtt cut inside its eight prefix bytes is accepted (12 bytes in,
+   16 bytes out) *)
+Theorem C01_wvtt_short_refuted : decode ex_wvtt_short = Ok (treeof ex_wvtt_short, [0; 0; 0; 0]) /\ exact_box (treeof ex_wvtt_short) = false /\
+  leaf_guard (LWvtt 0 true) = false /\ lenN ex_wvtt_short = 12 /\
+  match encode_w (treeof ex_wvtt_short) with Ok enc => lenN enc = 16 | _ => False end.
+Proof. exact wvtt_short_refuted. Qed.
+Print Assumptions C01_wvtt_short_refuted.
